@@ -166,3 +166,31 @@ pub fn run_probe_content_object(out: &mut dyn Write) {
     serde_json::to_writer(&mut *out, &ev).unwrap();
     out.write_all(b"\n").unwrap();
 }
+
+/// Populations (same input as bin-pop) through the XML codec; used for diagnosis and C07.
+pub fn run_populations(input: &mut dyn std::io::BufRead, out: &mut dyn Write) {
+    std::panic::set_hook(Box::new(|_| {}));
+    let mut text = String::new();
+    input.read_to_string(&mut text).unwrap();
+    for line in text.lines() {
+        if line.trim().is_empty() {
+            continue;
+        }
+        let case: Value = serde_json::from_str(line).unwrap();
+        let class = case["class"].as_str().unwrap();
+        let mut dom = WeakDom::new(rbx_dom_weak::InstanceBuilder::new("DataModel"));
+        let root = dom.root_ref();
+        let mut roots = Vec::new();
+        for (i, names) in case["insts"].as_array().unwrap().iter().enumerate() {
+            let mut b = rbx_dom_weak::InstanceBuilder::new(class).with_name(format!("I{}", i + 1));
+            for (j, n) in names.as_array().unwrap().iter().enumerate() {
+                let n = n.as_str().unwrap();
+                b.add_property(n, crate::bincase::value_for_spelling(class, n, (i * 10 + j) as u32 + 1));
+            }
+            roots.push(dom.insert(root, b));
+        }
+        let ev = xml_event(case["ep"].as_str().unwrap_or("pop"), &dom, &roots, "IgnoreUnknown", "IgnoreUnknown");
+        serde_json::to_writer(&mut *out, &ev).unwrap();
+        out.write_all(b"\n").unwrap();
+    }
+}
